@@ -16,7 +16,7 @@ def dm15_error(error, edcp=0x07, status=5, direct=1):
     return [0x00, (direct << 4) + (status << 1) + 1, error & 0xFF, (error >> 8) & 0xFF, (error >> 16) & 0xFF, edcp, 0xFF, 0xFF]
 
 
-def h_hist(ex, ops, seed_key=True, client='facade', timeout=1, app_delay=None, second_client=None):
+def h_hist(ex, ops, seed_key=True, client='facade', timeout=1, app_delay=None, second_client=None, nbytes=4):
     """ops: list of [kind, rw, arg]  kind: ok | wrong_key | refuse_proceed | refuse_respond | error_dm15 | absent
             rw: 'read' | 'write'; arg: error code for refuse_respond / error_dm15"""
     need_key = seed_key or any(o[0] == 'wrong_key' for o in ops)
@@ -31,7 +31,6 @@ def h_hist(ex, ops, seed_key=True, client='facade', timeout=1, app_delay=None, s
     if app_delay is not None:
         rig.app_delay = Fraction(app_delay)
     tmo = Fraction(timeout)
-    nbytes = 4
     hist = []
     for i, op in enumerate(ops):
         kind, rw = op[0], op[1]
@@ -168,6 +167,14 @@ def jobs(tier):
                 J([[f[0], rw] + f[1:], ['ok', rw], ['ok', 'read']], second_client=[1])
         J([['ok', rw], ['wrong_key', rw], ['ok', rw]])
         J([['wrong_key', rw], ['wrong_key', rw], ['ok', rw]])
+    # multi-packet data (RTS/CTS DM16) in failure histories
+    for rw in ('read', 'write'):
+        for f in fails:
+            J([[f[0], rw] + f[1:], ['ok', rw]], nbytes=20)
+        if not q:
+            for f in fails:
+                for n in (8, 9, 100):
+                    J([[f[0], rw] + f[1:], ['ok', 'read'], ['ok', 'write']], nbytes=n)
     codes = [0x1, 0x2, 0x10, 0x100, 0x109, 0x1000, 0x1003, 0x10001, 0xBEEF, 0xFFFFFE] if q else DEFINED + [0xBEEF, 0xFFFFFE, 0x3, 0x7FFFFF]
     for c in codes:
         J([['error_dm15', 'read', c], ['ok', 'read']], seed_key=False)
@@ -214,8 +221,8 @@ def jobs(tier):
 def meta(tier):
     return {
         'bounds': ['failure kinds: wrong key (the returned key is a symbolic 16-bit value, split by the solver into = / != expected), refusal at the proceed callback, refusal at respond(False, error), error DM15 from a scripted server for ' + ('10 codes incl. undefined ones' if tier == 'quick' else 'every defined code + undefined ones') + ', absent server, server application answering after the caller\'s timeout',
-                   'reads and writes of 4 bytes (pointer, data, values, seed symbolic); histories of 2 operations (thorough: every history of 4, selected histories of 6) mixing failures and successes on the same objects, each operation with its own symbolic pointer; the operation after a failure issued by the same client and by a second client at another address',
+                   'reads and writes of 4 bytes, and of 20 bytes (multi-packet DM16) for every failure kind (pointer, data, values, seed symbolic); histories of 2 operations (thorough: every history of 4, selected histories of 6) mixing failures and successes on the same objects, each operation with its own symbolic pointer; the operation after a failure issued by the same client and by a second client at another address',
                    'oracle after each failure: exception naming the code (and the library\'s text for defined codes) no later than the caller\'s timeout; callbacks and data only after the matching key; the next well-formed operation succeeds with the C17 oracle; all four state attributes idle at the end'],
-        'outside': ['timeouts other than 0.3 / 1 / 2.5 / 4 s', 'EDCP extension values other than 0x06/0x07 (the client treats the error indicator as not valid then)', 'histories longer than ' + ('3' if tier == 'quick' else '6'), 'multi-packet data in failure histories'],
+        'outside': ['timeouts other than 0.3 / 1 / 2.5 / 4 s', 'EDCP extension values other than 0x06/0x07 (the client treats the error indicator as not valid then)', 'histories longer than ' + ('3' if tier == 'quick' else '6')],
         'assumptions': ['as C17'],
     }
